@@ -835,6 +835,10 @@ PROPS["C07"] = dict(
         ("c07_pop_pre3", "x", "keys 0,1,2,4 + pop"),
         ("c07_pop_then_append_pre3", "x", "pop then append reuses the freed index"),
         ("c07_nil_and_real_keys", "x", "nil key and any finite non-zero real key"),
+        ("c07_script_0", "quick", "set 10,3,7; remove 10 - concrete keys, all i64 values, full comparison with the model at the end"),
+        ("c07_script_1", "quick", "append, append, pop, append - all i64 values"),
+        ("c07_script_2", "thorough", "set 5,-2; remove 5; pop; pop (one past empty)"),
+        ("c07_script_3", "thorough", "set 1,2; remove 1; set 1 again (moves to the end)"),
     ]],
 )
 
@@ -857,6 +861,9 @@ PROPS["C03"] = dict(
     cap=dict(quick=600, thorough=900), mem_gb=18, jobs=3,
     harnesses=[
         _vm("c03", "c03_endless_loop", dispatches=6, bounds="[Goto 0] under budget 1..=5"),
+        _vm("c03", "c03_run_function_budget", dispatches=5,
+            bounds="Vm::run_function on an endless script function with 1..=3 instructions left of a budget of 4",
+            limits={r"vm::Vm::<.*>::run_function$#*": 3}),
         _vm("c03", "c03_sufficient_budget", "x", dispatches=4, bounds="[int x][SetGlobal 0][Exit] under budget 4..=7"),
         _vm("c03", "c03_nested_budget", "x", dispatches=6, bounds="native -> run_function(endless) under budget 3..=5",
             limits={r"vm::Vm::<.*>::_run$": 1, r"vm::Vm::<.*>::run_function$": 0}),
@@ -893,7 +900,9 @@ PROPS["C06"] = dict(
         _vm("c06", "c06_read_write_upvalue_off0", "x", dispatches=3, bounds="SetUpvalue/ReadUpvalue from a callee frame", objects=True),
         _vm("c06", "c06_read_write_upvalue_off2", "x", dispatches=3, bounds="same with the enclosing frame at offset 2", objects=True),
         _vm("c06", "c06_close_keeps_last_value", "x", dispatches=2, bounds="CloseUpvalue then overwrite the dead slot", objects=True),
-        H("c06", "c06_closure_label_injective", "thorough", bounds="labels of closure sites: f 0..=7, path (0..=15, 0..=15)"),
+        H("c06", "c06_closure_label_injective", "quick", bounds="labels of closure sites: f 0..=7, path (0..=15, 0..=15): pairwise distinct"),
+        H("c06", "c06_closure_label_vs_function_label", "quick", bounds="closure label (f 0..=63, 3-level path, sub-indices 0..=255) against every function label 0..=63: distinct"),
+        H("c06", "c06_closure_label_injective_wide", "quick", bounds="f 0..=63, 3-level paths with sub-indices 0..=255: pairwise distinct (KNOWN FINDING: a collision exists)"),
     ],
 )
 
@@ -917,8 +926,8 @@ PROPS["C15"] = dict(
     cap=dict(quick=600, thorough=900), mem_gb=22, jobs=2,
     harnesses=[
         _vm("c15", "c15_addr_missing_native", dispatches=2, bounds="missing native (4 operand bytes): attributed address = own first byte"),
-        _vm("c15", "c15_addr_get_property", dispatches=2, bounds="GetProperty on an integer (no operands)"),
-        _vm("c15", "c15_addr_call_non_function", dispatches=2, bounds="CallFunction on an integer"),
+        _vm("c15", "c15_addr_get_property", "x", dispatches=2, bounds="GetProperty on an integer (no operands)"),
+        _vm("c15", "c15_addr_call_non_function", "x", dispatches=2, bounds="CallFunction on an integer"),
         _vm("c15", "c15_addr_read_upvalue", "thorough", dispatches=2, bounds="ReadUpvalue outside a closure (4 operand bytes)"),
         _vm("c15", "c15_addr_stackoverflow", dispatches=2, bounds="ScalarInt on a full stack (8 operand bytes)"),
         _vm("c15", "c15_addr_unknown_global", "thorough", dispatches=2, bounds="ReadGlobalVar of an unknown id (4 operand bytes)"),
@@ -982,14 +991,22 @@ PROPS["C02"] = dict(
         _vm("c02", "c02_unreachable_string_is_collected", dispatches=2, bounds="unreachable string, collection at the first allocation", objects=True, gc_loops=True),
         _vm("c02", "c02_running_closure_survives", dispatches=3, bounds="closure executing its own body allocates; schedule in 0..=1", objects=True, gc_loops=True),
         _vm("c02", "c02_native_argument_survives", dispatches=2, bounds="native holding a popped string argument allocates; schedule in 0..=1", objects=True, gc_loops=True),
+        _vm("c02", "c02_gc_step_strings", dispatches=0, bounds="RuntimeData::gc directly: two strings, each rooted on stack/global/both/nowhere (solver-chosen)", objects=True, gc_loops=True),
+        _vm("c02", "c02_gc_step_table", dispatches=0, bounds="gc directly: table holding a string (optionally also itself), each rooted solver-chosen", objects=True, gc_loops=True),
+        _vm("c02", "c02_gc_step_closure", dispatches=0, bounds="gc directly: closure -> closed upvalue -> string, roots solver-chosen", objects=True, gc_loops=True),
+        _vm("c02", "c02_string_literal_under_gc", dispatches=0, bounds="instr_string_literal directly, collection at any subset of its two allocations, a rooted string alongside", objects=True, gc_loops=True),
     ],
 )
 
 # --------------------------------------------------------------------------- function-level harnesses (fx)
 def _fx(name, tier, b, **kw):
     kw.setdefault("objects", True)
-    if "c06" in name:
-        kw.setdefault("heavy", True)
+    if "c06" in name or "probe_up" in name:
+        # the open-upvalue list has at most two entries in these harnesses; without a tight bound
+        # each of 18 unrollings dereferences a solver-chosen `next` pointer against every heap object
+        kw.setdefault("limits", {})
+        kw["limits"].setdefault(r"instr_execution::_close_upvalues::<.*>$#*", 3)
+        kw["limits"].setdefault(r"instr_execution::register_upvalue::<.*>$#*", 3)
     return _vm("fx", name, tier, dispatches=0, bounds=b, **kw)
 
 
@@ -1007,10 +1024,26 @@ PROPS["C04"]["harnesses"] += [
     _fx("fx_c04_call_stack_full", "quick", "call with a full call stack: CallStackOverflow"),
 ]
 PROPS["C06"]["harnesses"] += [
-    _fx("fx_c06_capture_off0_idx0", "thorough", "register_upvalue x2 (sharing) + write_upvalue + read_upvalue from a callee frame; enclosing frame at offset 0, local 0"),
-    _fx("fx_c06_capture_off2_idx1", "quick", "same, enclosing frame at offset 2, local 1"),
-    _fx("fx_c06_capture_off3_idx0", "thorough", "same, enclosing frame at offset 3, local 0"),
+    _fx("fx_probe_up0", "x", "probe"),
+    _fx("fx_probe_up1", "x", "probe"),
+    _fx("fx_probe_up2", "x", "probe"),
+    _fx("fx_probe_up3", "x", "probe"),
+    _fx("fx_probe_up4", "x", "probe"),
+    _fx("fx_probe_up5", "x", "probe"),
+    _fx("fx_probe_up6", "x", "probe"),
+    _fx("fx_c06_capture_one_off0_idx0", "quick", "register_upvalue (one closure) + write_upvalue + read_upvalue from the closure's frame; enclosing frame at offset 0, local 0"),
+    _fx("fx_c06_capture_one_off0_idx1", "thorough", "same, offset 0, local 1"),
+    _fx("fx_c06_capture_one_off2_idx1", "quick", "same, enclosing frame at offset 2, local 1"),
+    _fx("fx_c06_capture_one_off3_idx0", "thorough", "same, enclosing frame at offset 3, local 0"),
+    _fx("fx_c06_siblings_share_off0", "x", "two closures capture the same local: one shared upvalue; offset 0"),
+    _fx("fx_c06_siblings_share_off2", "x", "same at frame offset 2"),
+    _fx("fx_c06_capture_off0_idx0", "x", "register_upvalue x2 (sharing) + write_upvalue + read_upvalue from a callee frame; enclosing frame at offset 0, local 0"),
+    _fx("fx_c06_capture_off2_idx1", "x", "same, enclosing frame at offset 2, local 1"),
+    _fx("fx_c06_capture_off3_idx0", "x", "same, enclosing frame at offset 3, local 0"),
     _fx("fx_c06_close_keeps_value_off0", "thorough", "close_upvalues at scope exit keeps the last value; offset 0"),
     _fx("fx_c06_close_keeps_value_off2", "quick", "same at frame offset 2"),
-    _fx("fx_c06_return_closes_upvalues", "quick", "instr_return closes the upvalues of the frame it leaves"),
+    _fx("fx_c06_return_closes_upvalues", "x", "instr_return closes the upvalues of the frame it leaves"),
+    _fx("fx_c06_two_locals_ascending_then_return", "x", "two locals captured in ascending slot order by two closures, then return: both closed, both keep their value"),
+    _fx("fx_c06_two_locals_descending_then_return", "x", "same, captured in descending slot order"),
+    _fx("fx_c06_inner_scope_closes_only_its_variable", "x", "outer local stays open while an inner local is captured and its scope ends"),
 ]
